@@ -423,6 +423,188 @@ def scenarios(rng, n_random):
     return out
 
 
+# ------------------------------------------------------------------------------ histories with shared exception objects
+
+EXC_HOLDERS = {
+    # how a formula gets at the exception object it raises: (expression, exception class); "fresh" creates one per raise
+    "name": ("E0", ValueError), "path": ("P.E1", KeyError), "model": ("E2", ValueError), "cells": ("held()", KeyError),
+    "global-path": ("_model.E3", ZeroDivisionError), "fresh": ("ValueError(x)", ValueError),
+}
+
+
+def gen_shared_program(rng, holders=None):
+    """cells (dependency order): raisers `rK` (raise an exception object held by a reference / a cached value, or a fresh
+    one), callers `mK` (call a lower cells, cached or not), handlers `sK` (try a lower cells, on failure return -1 or
+    call ANOTHER lower cells, whose failure escapes), one value cells"""
+    hs = holders or [rng.choice(sorted(EXC_HOLDERS)) for _ in range(3)]
+    cells = [{"name": "v", "kind": "value", "cached": True}]
+    for i, h in enumerate(hs):
+        cells.append({"name": "r%d" % i, "kind": "raise", "holder": h, "cached": rng.random() < 0.8})
+    for i in range(rng.randrange(2, 5)):
+        cells.append({"name": "m%d" % i, "kind": "call", "callee": rng.choice(cells[1:])["name"],
+                      "cached": rng.random() < 0.7})
+    for i in range(rng.randrange(2, 4)):
+        failing = [c for c in cells if c["kind"] in ("raise", "call")]
+        cells.append({"name": "s%d" % i, "kind": "safe", "callee": rng.choice(failing)["name"],
+                      "after": rng.choice([None, None, rng.choice(cells)["name"]]), "cached": rng.random() < 0.7})
+        if rng.random() < 0.5:
+            cells.append({"name": "t%d" % i, "kind": "call", "callee": cells[-1]["name"], "cached": True})
+    return cells
+
+
+def shared_text(c):
+    n = c["name"]
+    if c["kind"] == "value":
+        return "def %s(x):\n    return x\n" % n
+    if c["kind"] == "raise":
+        return "def %s(x):\n    y = x + 1\n    raise %s\n" % (n, EXC_HOLDERS[c["holder"]][0])
+    if c["kind"] == "call":
+        return "def %s(x):\n    return %s(x) + 1\n" % (n, c["callee"])
+    return "def %s(x):\n    try:\n        return %s(x)\n    except Exception:\n        return %s\n" % (
+        n, c["callee"], "%s(x) + 2" % c["after"] if c["after"] else "-1")
+
+
+def shared_spec(cells, name, x):
+    """what the definitions say, by the harness' own reading: ("ok",) or ("err", chain [(cells, (x,), line)] outermost
+    first, holder) - independent of any earlier evaluation (held values are never part of a failing chain)"""
+    c = next(k for k in cells if k["name"] == name)
+    if c["kind"] == "value":
+        return ("ok",)
+    if c["kind"] == "raise":
+        return ("err", [(name, (x,), 3)], c["holder"])
+    if c["kind"] == "call":
+        r = shared_spec(cells, c["callee"], x)
+        return r if r[0] == "ok" else ("err", [(name, (x,), 2)] + r[1], r[2])
+    r = shared_spec(cells, c["callee"], x)
+    if r[0] == "ok" or not c["after"]:
+        return ("ok",)
+    r = shared_spec(cells, c["after"], x)
+    return r if r[0] == "ok" else ("err", [(name, (x,), 5)] + r[1], r[2])
+
+
+KNOWN_SHARED_HANDLED = "C17-shared-exception-handled-then-escaping"
+
+
+def shared_handled(cells, name, x):
+    """holders of the failures that formulas HANDLE in the evaluation of name(x) when nothing is held yet (from the
+    definitions alone)"""
+    c = next(k for k in cells if k["name"] == name)
+    if c["kind"] in ("value", "raise"):
+        return set()
+    if c["kind"] == "call":
+        return shared_handled(cells, c["callee"], x)
+    r = shared_spec(cells, c["callee"], x)
+    res = shared_handled(cells, c["callee"], x)
+    if r[0] == "err":
+        res = res | {r[2]}
+        if c["after"]:
+            res |= shared_handled(cells, c["after"], x)
+    return res
+
+
+def run_shared_history(h, out, stats):
+    """a HISTORY of top-level evaluations - successful ones (in which formulas handled failures) and failing ones - over
+    formulas that raise exception objects shared between evaluations; after every failing evaluation `get_traceback()`
+    must be the chain of THIS evaluation (cells, arguments, line), `get_error()` the object raised, and the message of
+    the FormulaError must list as many formula frames"""
+    import re
+    from ..impl import close_all
+    cells = h["cells"]
+    close_all()
+    try:
+        with quiet():
+            m = mx.new_model("T")
+            s = m.new_space("S")
+            P = m.new_space("P")
+            objs = {"name": ValueError("shared E0"), "path": KeyError("shared E1"), "model": ValueError("shared E2"),
+                    "cells": KeyError("shared held"), "global-path": ZeroDivisionError("shared E3")}
+            s.E0, P.E1, m.E2, m.E3, s.P = objs["name"], objs["path"], objs["model"], objs["global-path"], P
+            s.HELD = objs["cells"]
+            s.new_cells("held", formula="def held():\n    return HELD\n")
+            for c in cells:
+                s.new_cells(c["name"], formula=shared_text(c)).is_cached = c["cached"]
+            for k, (name, x) in enumerate(h["evals"]):
+                want = shared_spec(cells, name, x)
+                hist = dict(h, evals=h["evals"][:k + 1])
+                stats["shared_exc_evaluations"] += 1
+                try:
+                    s.cells[name](x)
+                    got = ("ok",)
+                except FormulaError as fe:
+                    err, tb = mx.get_error(), mx.get_traceback()
+                    got = ("err", [(n.obj.name, tuple(n.args), ln) for n, ln in tb])
+                    msg_frames = len(re.findall(r"^\d+: ", str(fe), re.M))
+                except BaseException as e:      # noqa: BLE001
+                    out.fail("%s(%d) ended in %s(%s) instead of a value or FormulaError" % (name, x, type(e).__name__, e), hist)
+                    return False
+                if want[0] == "ok":
+                    if got[0] != "ok":
+                        out.fail("%s(%d) failed (traceback %s); its definitions handle every failure" % (name, x, got[1]), hist)
+                        return False
+                    continue
+                stats["shared_exc_failures_examined"] += 1
+                if got[0] == "ok":
+                    out.fail("%s(%d) returned a value; by its definitions it fails with the chain %s" % (name, x, want[1]), hist)
+                    return False
+                if got[1] != want[1]:
+                    # known finding, recognised from the DEFINITIONS: within this one evaluation a formula handles a
+                    # failure carrying the very exception object that escapes later, and the report is the executing
+                    # chain followed by extra nodes.  Anything else (extra nodes without such a handler in the
+                    # evaluation - left over from EARLIER evaluations -, a wrong prefix, missing nodes) is a violation
+                    known = (want[2] != "fresh" and want[2] in shared_handled(cells, name, x)
+                             and got[1][:len(want[1])] == want[1] and len(got[1]) > len(want[1]))
+                    out.fail("get_traceback() after %s(%d) = %s but the chain executing at the escaping raise of THIS "
+                             "evaluation was %s (exception object: %s)" % (name, x, got[1], want[1], want[2]), hist,
+                             key=KNOWN_SHARED_HANDLED if known else None)
+                    if known:
+                        continue
+                    return False
+                if msg_frames != len(want[1]):
+                    out.fail("the FormulaError of %s(%d) lists %d formula frames, the executing chain had %d" % (
+                        name, x, msg_frames, len(want[1])), hist)
+                    return False
+                if (err is not objs[want[2]]) if want[2] != "fresh" else (type(err) is not ValueError or err.args != (x,)):
+                    out.fail("get_error() after %s(%d) is %r, not the exception raised (%s)" % (name, x, err, want[2]), hist)
+                    return False
+    finally:
+        close_all()
+    return True
+
+
+def shared_exception_histories(ctx, out, stats):
+    import random
+    hists = []
+    # motifs: every holder x (handled in a successful evaluation | escaped) then the same object escaping again,
+    # through the same chain, a longer one, another raiser of the same object
+    for holder in sorted(EXC_HOLDERS):
+        cells = [{"name": "v", "kind": "value", "cached": True},
+                 {"name": "r0", "kind": "raise", "holder": holder, "cached": True},
+                 {"name": "r1", "kind": "raise", "holder": holder, "cached": False},
+                 {"name": "m0", "kind": "call", "callee": "r0", "cached": True},
+                 {"name": "m1", "kind": "call", "callee": "m0", "cached": False},
+                 {"name": "s0", "kind": "safe", "callee": "m0", "after": None, "cached": True},
+                 {"name": "s1", "kind": "safe", "callee": "m1", "after": "r1", "cached": True},
+                 {"name": "s2", "kind": "safe", "callee": "r0", "after": "v", "cached": False}]
+        for evals in ([["s0", 1], ["m0", 2]], [["s0", 1], ["r1", 7]], [["s0", 1], ["s2", 2], ["m1", 3], ["m0", 3]],
+                      [["m0", 1], ["s0", 2], ["m1", 3]], [["s1", 1], ["s0", 2], ["s1", 3], ["r0", 4]],
+                      [["s0", 1], ["s0", 1], ["v", 1], ["m1", 1]]):
+            hists.append({"scenario": "shared-exception", "cells": cells, "evals": evals})
+    for i in range(ctx.n(60, 1500)):
+        rng = ctx.rng("shared-exc", i)
+        # two of three programs use ONE holder for all raisers (every failure is the same object)
+        cells = gen_shared_program(rng, [rng.choice(sorted(EXC_HOLDERS))] * 3 if rng.random() < 0.66 else None)
+        names = [c["name"] for c in cells]
+        hists.append({"scenario": "shared-exception", "cells": cells,
+                      "evals": [[rng.choice(names), rng.randrange(4)] for _ in range(rng.randrange(4, 11))]})
+    for h in hists:
+        stats["shared_exc_histories"] += 1
+        if not run_shared_history(h, out, stats):
+            stats["shared_exc_failed"] += 1
+            if stats["shared_exc_failed"] >= 3:
+                break
+    stats.pop("shared_exc_failed", None)
+
+
 def oracle(case, recs, out, stats):
     impl = ExecImpl(case["cells"], case["refs"], case["n_rn"], case["maxdepth"], log=False)
     nontrivial = False
@@ -503,13 +685,25 @@ def _report(out, got, want, hist, case, kind):
 
 
 def run(ctx, out):
-    X.run_family(ctx, out, CFG, oracle, 200, 3000,
+    stats = X.run_family(ctx, out, CFG, oracle, 200, 3000,
                  structured=scenarios(ctx.rng("scenarios"), ctx.n(40, 400)) +
                  block_scenarios(ctx.rng("blocks"), ctx.n(30, 400)) +
                  frame_scenarios(ctx.rng("frames"), ctx.n(30, 400)))
+    shared_exception_histories(ctx, out, stats)
+    for k in ("shared_exc_histories", "shared_exc_evaluations", "shared_exc_failures_examined"):
+        out.coverage["input_distribution"][k] = stats[k]
+    out.coverage["rule"] += ("; histories of top-level evaluations (successful ones in which formulas handled failures, failing "
+                             "ones) over formulas raising exception OBJECTS shared between evaluations (held by a reference "
+                             "read by name / path / at model level, by a cached value) - expected chain from the "
+                             "definitions alone")
     out.assumptions.append("line numbers are CPython's; they are checked against the interpreter's own traceback of "
                            "the original exception by the oracle, not modelled in Lean")
 
 
 def replay(ctx, payload, out):
+    import collections
+    h = payload.get("history") or {}
+    if isinstance(h, dict) and h.get("scenario") == "shared-exception":
+        run_shared_history(h, out, collections.Counter())
+        return
     X.replay_family(ctx, payload, out, CFG, oracle)
